@@ -41,7 +41,7 @@ ASSUMPTIONS = ["the reclamation bound is circuit_timeout + (hops + 2) x (max_tim
                "crashed nodes are not inspected (their state died with them)"]
 REACH = ["dropped:destroy", "dropped:CreatedPayload", "dropped:ExtendedPayload", "dropped:ExtendPayload", "dropped:CreatePayload", "dropped:relayed_handshake",
          "reclaimed_by_timeout_only", "exit_transports_closed", "originator_crash", "join_refused_at_limit",
-         "relay_early_over_budget_dropped", "phase:half", "phase:ready", "phase:transfer"]
+         "relay_early_over_budget_dropped", "exit_wants_unbuildable_tunnels", "chatty_outside_peer", "phase:half", "phase:ready", "phase:transfer"]
 
 DESTROY_ID = 8
 CONTROL = ("CreatePayload", "CreatedPayload", "ExtendPayload", "ExtendedPayload")
@@ -78,6 +78,17 @@ def cases(tier: str, base_seed: int):  # noqa: ANN201
         base = {"seed": base_seed, "knobs": {"lat_jit": 0.0}, "cfg": cfg, "drops": [], "extra": []}
         prof = execute(dict(base, profile=True)).get("profile", [])
         plan.append((cfg, prof))
+    cfgs = [cfg for cfg, _p in plan]
+    for cfg in cfgs:
+        if cfg["phase"] != "transfer":
+            continue
+        for extra in ([{"kind": "exit_wants_tunnels"}], [{"kind": "chatty_outside", "every": 5.0}]):
+            for prof_cfg, prof in plan:
+                if prof_cfg is cfg or prof_cfg == cfg:
+                    destroys = [d for d in prof if d[2] == "destroy"]
+                    for drops in ([], *[[d] for d in destroys], destroys):
+                        yield {"seed": base_seed, "knobs": {"lat_jit": 0.0}, "cfg": cfg, "drops": [list(d) for d in drops],
+                               "extra": extra}
     # interleave configurations so that a budget-limited run covers all of them
     streams = []
     for cfg, prof in plan:
@@ -108,6 +119,7 @@ def cases(tier: str, base_seed: int):  # noqa: ANN201
                 {"kind": "jump", "node": rng.choice(["o", "hop1", "exit"]), "delta": rng.choice([-30.0, -5.0, 10.0, 120.0]),
                  "t": rng.choice([1.0, 5.0, 20.0])},
                 {"kind": "greedy"}, {"kind": "join_limit", "limit": rng.choice([1, 2, 3])},
+                {"kind": "exit_wants_tunnels"}, {"kind": "chatty_outside", "every": rng.choice([3.0, 5.0, 15.0])},
                 {"kind": "stall", "node": rng.choice(["hop1", "exit"]), "t": rng.choice([0.5, 3.0]), "d": rng.choice([2.0, 30.0])}]))
         yield {"seed": seed, "cfg": cfg, "extra": extra,
                "knobs": {"lat_jit": rng.choice([0.0, 0.05, 0.3]), "loss": rng.choice([0.0, 0.1, 0.3]), "dup": rng.choice([0.0, 0.1]),
@@ -128,7 +140,9 @@ def execute(case: dict) -> dict:  # noqa: C901, PLR0915
     settings = {}
     if limit is not None:
         settings["max_joined_circuits"] = limit
-    tw = TunnelWorld(c, n=hops + 3, exits=(hops + 1, hops + 2), settings=settings)
+    lonely_exit = any(e["kind"] == "exit_wants_tunnels" for e in extra)
+    # (with "exit_wants_tunnels" the world has a single exit node, which itself asks for tunnels it can never build)
+    tw = TunnelWorld(c, n=hops + 3, exits=(hops + 1,) if lonely_exit else (hops + 1, hops + 2), settings=settings)
     drops = {tuple(d) for d in case.get("drops", [])}
     counts: dict = {}
     profile: list = []
@@ -172,6 +186,10 @@ def execute(case: dict) -> dict:  # noqa: C901, PLR0915
                 return _inner(payload, addr)
             node.ov.join_circuit = join
         t0 = loop.time()
+        if lonely_exit:
+            x0 = tw.nodes[hops + 1]
+            x0.call(x0.ov.build_tunnels, 1)
+            world.probe("exit_wants_unbuildable_tunnels")
         circs = [o.call(o.ov.create_circuit, hops)]
         if limit is not None:
             # pressure on the join limit: more circuits than the pool may join
@@ -242,6 +260,17 @@ def execute(case: dict) -> dict:  # noqa: C901, PLR0915
                         break
             sender = o.call(asyncio.ensure_future, pump())
             await asyncio.sleep(1.5)
+        chatty = next((e for e in extra if e["kind"] == "chatty_outside"), None)
+        if chatty is not None and w.received:
+            # the outside world keeps talking to the exit's socket after the circuit is gone
+            async def chatter() -> None:
+                srcs = sorted({src for _t, _d, src in w.received})
+                world.probe("chatty_outside_peer")
+                while True:
+                    for src in srcs:
+                        w.transport.sendto(b"d" + b"3:hey" + b"e", src)
+                    await asyncio.sleep(chatty["every"])
+            st["chatter"] = world.loop.create_task(chatter())
         # ---------------------------------------------------------------- the teardown
         path = tw.path_of(o, circ)
         if who == "originator":
@@ -279,6 +308,8 @@ def execute(case: dict) -> dict:  # noqa: C901, PLR0915
         await asyncio.sleep(bound + stall_extra + 30)
         if sender is not None:
             sender.cancel()
+        if st.get("chatter") is not None:
+            st["chatter"].cancel()
         # ---------------------------------------------------------------- oracle at the deadline
         left = []
         for node in tw.nodes:
